@@ -158,6 +158,11 @@ class Program:
                 m.imports[a.asname or a.name.split(".")[0]] = a.name if a.asname else a.name.split(".")[0]
         elif isinstance(st, ast.ImportFrom):
             base = st.module or ""
+            if st.level:
+                pkg = m.modname if m.relpath.endswith("__init__.py") else m.modname.rsplit(".", 1)[0]
+                for _i in range(st.level - 1):
+                    pkg = pkg.rsplit(".", 1)[0]
+                base = pkg + ("." + base if base else "")
             for a in st.names:
                 m.imports[a.asname or a.name] = f"{base}.{a.name}" if base else a.name
 
@@ -216,12 +221,31 @@ class Program:
         return self.modules[rel]
 
     def func(self, key: str) -> FuncInfo:
-        if key not in self.functions:
+        fi = self.func_opt(key)
+        if fi is None:
             raise AnchorMissing(f"function {key} not found")
-        return self.functions[key]
+        return fi
 
     def func_opt(self, key: str) -> Optional[FuncInfo]:
-        return self.functions.get(key)
+        fi = self.functions.get(key)
+        if fi is not None:
+            return fi
+        # a module-level function that moved to another module of the package and is imported back under its name
+        rel, _, qual = key.partition("::")
+        m = self.modules.get(rel)
+        if m is not None and qual and "." not in qual and qual in m.imports:
+            target = m.imports[qual]
+            if target.startswith("."):
+                base = m.modname.rsplit(".", 1)[0] if not rel.endswith("__init__.py") else m.modname
+                dots = len(target) - len(target.lstrip("."))
+                for _i in range(dots - 1):
+                    base = base.rsplit(".", 1)[0]
+                target = base + "." + target.lstrip(".")
+            mod, _, name = target.rpartition(".")
+            rel2 = self._mod_to_rel(mod)
+            if rel2 is not None and rel2 != rel:
+                return self.func_opt(f"{rel2}::{name}")
+        return None
 
     def cls(self, name: str) -> ClassInfo:
         if name not in self.classes:
